@@ -24,6 +24,8 @@ def fragment_tokens(c):
     """(kind, text, line, col) of every embedded Go fragment, from the real lexer's token stream; a fragment with a format verb
     is two fragments (verb and expression); a silent script is mapped without its surrounding blanks"""
     toks = common.run_lines(common.IMPLRUN, ["tokens " + hx(c)])[0]
+    if toks == "unavailable":      # harness built without the export shims: the model's token stream (byte-exact with the lexer's)
+        toks = common.run_lines(common.DRIVER, ["tokens " + hx(c)])[0]
     out = []
     for t in toks.split(";"):
         p = t.split(":")
